@@ -1102,17 +1102,6 @@ func min_max(args py.Tuple, kwargs py.StringDict, name string) (py.Object, error
 			return nil, py.ExceptionNewf(py.TypeError, "'%s' object is not callable", keyFunc.Type())
 		}
 	}
-	if defaultValue != nil {
-		maxItem = defaultValue
-		if keyFunc != nil {
-			maxVal, err = py.Call(kf, py.Tuple{defaultValue}, nil)
-			if err != nil {
-				return nil, err
-			}
-		} else {
-			maxVal = defaultValue
-		}
-	}
 	iter, err := py.Iter(values)
 	if err != nil {
 		return nil, err
@@ -1159,6 +1148,10 @@ func min_max(args py.Tuple, kwargs py.StringDict, name string) (py.Object, error
 	}
 
 	if maxItem == nil {
+		// the default is returned for an empty iterable only; it does not take part in the comparison
+		if defaultValue != nil {
+			return defaultValue, nil
+		}
 		return nil, py.ExceptionNewf(py.ValueError, "%s() arg is an empty sequence", name)
 	}
 
